@@ -222,6 +222,8 @@ ALSO['C16'] += ' The previous file at the name may be longer; the stored file ma
 # round 8
 ALSO['C08'] += ' Coefficients handed over as numpy arrays.'
 ALSO['C13'] += ' Keyword order of the conditions shuffled.'
+ALSO['C06'] += ' Reactions printed, compared and serialised between writes.'
+ALSO['C07'] += ' Objects printed, compared and serialised between writes.'
 
 
 def build():
